@@ -197,7 +197,96 @@ func (c *Ctx) noSwallowRule() {
 }
 
 // swallowPaths follows the error value e of call through f (see noSwallowRule).
+// With call == nil the value e is a parameter of f, live from the entry; with strict set every
+// return reached with e live must return e itself (f is then a filter: its result is nil only
+// where e was shown to be nil or not the budget error).
 func (c *Ctx) swallowPaths(f *ssa.Function, call *ssa.Call, e ssa.Value, sentinel *ssa.Global, sentAssignable func(types.Type) bool) []string {
+	return c.swallowPathsX(f, call, e, sentinel, sentAssignable, false)
+}
+
+var errFilterMemo = map[*ssa.Function]int{} // 1 filter, 2 not, 3 being computed
+
+// errFilter: g takes one error and returns one error, and returns its argument on every path on
+// which the argument can be the budget error.
+func (c *Ctx) errFilter(g *ssa.Function, sentinel *ssa.Global, sentAssignable func(types.Type) bool) bool {
+	if g == nil || len(g.Blocks) == 0 || g.Pkg == nil || c.pkgs[g.Pkg.Pkg.Path()] == nil {
+		return false
+	}
+	switch errFilterMemo[g] {
+	case 1:
+		return true
+	case 2, 3:
+		return false
+	}
+	errT := types.Universe.Lookup("error").Type()
+	sig := g.Signature
+	if len(g.Params) != 1 || sig.Results().Len() != 1 || !types.Identical(g.Params[0].Type(), errT) || !types.Identical(sig.Results().At(0).Type(), errT) {
+		errFilterMemo[g] = 2
+		return false
+	}
+	errFilterMemo[g] = 3
+	bad := c.swallowPathsX(g, nil, g.Params[0], sentinel, sentAssignable, true)
+	if len(bad) == 0 {
+		errFilterMemo[g] = 1
+		return true
+	}
+	errFilterMemo[g] = 2
+	return false
+}
+
+// flagImplied: for a function with a boolean result i and a final error result: +1 if on every
+// return a non-nil error comes with result i true, -1 if with result i false, 0 otherwise.
+func flagImplied(g *ssa.Function, i int) int {
+	if g == nil || len(g.Blocks) == 0 {
+		return 0
+	}
+	res := g.Signature.Results()
+	last := res.Len() - 1
+	pos, neg := true, true
+	for _, r := range returns(g) {
+		if len(r.Results) != res.Len() {
+			return 0
+		}
+		re, rv := r.Results[last], r.Results[i]
+		if isNilConst(re) {
+			continue
+		}
+		if b, ok := constBool(rv); ok {
+			if b {
+				neg = false
+			} else {
+				pos = false
+			}
+			continue
+		}
+		if bo, ok := rv.(*ssa.BinOp); ok && (bo.Op == token.NEQ || bo.Op == token.EQL) {
+			var other ssa.Value
+			if sameValue(bo.X, re) {
+				other = bo.Y
+			} else if sameValue(bo.Y, re) {
+				other = bo.X
+			}
+			if other != nil && isNilConst(other) {
+				if bo.Op == token.NEQ {
+					neg = false
+				} else {
+					pos = false
+				}
+				continue
+			}
+		}
+		return 0
+	}
+	switch {
+	case pos && !neg:
+		return 1
+	case neg && !pos:
+		return -1
+	}
+	return 0
+}
+
+func (c *Ctx) swallowPathsX(f *ssa.Function, call *ssa.Call, e ssa.Value, sentinel *ssa.Global, sentAssignable func(types.Type) bool, strict bool) []string {
 	alias := map[ssa.Value]bool{e: true}
 	// values that carry e: conversions, type assertions on it
 	closeAlias := func() {
@@ -210,6 +299,10 @@ func (c *Ctx) swallowPaths(f *ssa.Function, call *ssa.Call, e ssa.Value, sentine
 						continue
 					}
 					switch x := ins.(type) {
+					case *ssa.Call:
+						if len(x.Call.Args) == 1 && alias[x.Call.Args[0]] && c.errFilter(x.Call.StaticCallee(), sentinel, sentAssignable) {
+							alias[v], changed = true, true
+						}
 					case *ssa.ChangeInterface:
 						if alias[x.X] {
 							alias[v], changed = true, true
@@ -311,6 +404,15 @@ func (c *Ctx) swallowPaths(f *ssa.Function, call *ssa.Call, e ssa.Value, sentine
 				return equal // e is another package-level value
 			}
 		case *ssa.Extract:
+			if ex, ok := e.(*ssa.Extract); ok && call != nil && x.Tuple == ex.Tuple && x.Index != ex.Index {
+				// another result of the same call: a flag that is set whenever the error is
+				switch flagImplied(call.Call.StaticCallee(), x.Index) {
+				case 1:
+					return !outcome
+				case -1:
+					return outcome
+				}
+			}
 			if ta, ok := x.Tuple.(*ssa.TypeAssert); ok && ta.CommaOk && x.Index == 1 && alias[ta.X] {
 				if outcome {
 					return !sentAssignable(ta.AssertedType) // the sentinel cannot pass this test
@@ -361,7 +463,12 @@ func (c *Ctx) swallowPaths(f *ssa.Function, call *ssa.Call, e ssa.Value, sentine
 				}
 			}
 		}
-		flowOut(call.Block())
+		if call != nil {
+			flowOut(call.Block())
+		} else {
+			liveIn[f.Blocks[0]] = true
+			flowOut(f.Blocks[0])
+		}
 		for len(work) > 0 {
 			b := work[len(work)-1]
 			work = work[:len(work)-1]
@@ -411,7 +518,7 @@ func (c *Ctx) swallowPaths(f *ssa.Function, call *ssa.Call, e ssa.Value, sentine
 	for _, b := range f.Blocks {
 		live := liveIn[b]
 		for _, ins := range b.Instrs {
-			if ins == ssa.Instruction(call) {
+			if call != nil && ins == ssa.Instruction(call) {
 				live = true
 				continue
 			}
@@ -439,6 +546,19 @@ func (c *Ctx) swallowPaths(f *ssa.Function, call *ssa.Call, e ssa.Value, sentine
 				continue
 			}
 			v := r.Results[res.Len()-1]
+			if strict {
+				if phi, ok := v.(*ssa.Phi); ok && !alias[v] {
+					pb := phi.Block()
+					for i, ev := range phi.Edges {
+						if liveEdge[[2]int{pb.Preds[i].Index, pb.Index}] && !alias[ev] {
+							note("another value than the argument is returned")
+						}
+					}
+				} else if !alias[v] {
+					note("another value than the argument is returned")
+				}
+				continue
+			}
 			if isNilConst(v) {
 				note(fmt.Sprintf("the function returns nil at %s on a path where that error was not excluded", c.pos(r.Pos())))
 				continue
